@@ -123,7 +123,7 @@ func c05Body(x *explore.Ctx, sh c05Shape, readerIsServer bool, rbs, fi int, tier
 	msgs := full.Data()
 	cut := x.Pick(len(stream)+1, "cut")
 	chunking := x.Pick(3, "chunking")
-	prog := x.Pick(3, "readprog") // 0 ReadMessage, 1 NextReader+Read, 2 NextReader + read one byte, then abandon
+	prog := x.Pick(4, "readprog") // 0 ReadMessage, 1 NextReader+Read, 2 NextReader + read one byte, then abandon, 3 JoinMessages
 	rsize := 4096
 	if prog == 1 {
 		rsize = c05ReadSizes[x.Pick(len(c05ReadSizes), "readsize")]
@@ -159,6 +159,46 @@ func c05Body(x *explore.Ctx, sh c05Shape, readerIsServer bool, rbs, fi int, tier
 	}
 	if cut > 0 {
 		x.NonTrivial()
+	}
+	if prog == 3 {
+		// JoinMessages: the concatenation must be a prefix of the concatenated messages, cover every
+		// message that had completely arrived, and end with the connection's error - never a clean end
+		all, jerr := io.ReadAll(io.LimitReader(websocket.JoinMessages(c, ""), 1<<24))
+		var cat []byte
+		mustLen, mayLen := 0, 0
+		for _, m := range msgs {
+			cat = append(cat, m.Payload...)
+			if m.EndOff <= cut {
+				mayLen = len(cat)
+			}
+		}
+		ab := cut
+		if nc.FailStart >= 0 {
+			ab = nc.FailStart
+		}
+		sum := 0
+		for _, m := range msgs {
+			sum += len(m.Payload)
+			if m.EndOff <= ab {
+				mustLen = sum
+			}
+		}
+		x.Obs("join: %d bytes err=%v", len(all), jerr)
+		// (an end of stream exactly at a message boundary is indistinguishable from a complete
+		// stream: a clean end is acceptable there)
+		atBoundary := cut == 0
+		for _, m := range msgs {
+			if m.EndOff == cut {
+				atBoundary = true
+			}
+		}
+		x.Check(jerr != nil || (atBoundary && ft.atEnd == netsim.FailEOF), key("join-clean-end"), "JoinMessages reader ended cleanly although the transport failed inside a message (offset %d of %d)", cut, len(stream))
+		x.Check(bytes.HasPrefix(cat, all), key("corrupt"), "JoinMessages delivered bytes that are not a prefix of the messages sent")
+		x.Check(len(all) >= mustLen, key("lost-complete"), "JoinMessages delivered %d bytes, %d belong to messages that had completely arrived", len(all), mustLen)
+		_ = mayLen
+		_, r, err := c.NextReader()
+		x.Check(err != nil && r == nil, key("resurrected"), "NextReader after the JoinMessages error returned a reader")
+		return
 	}
 	// ---- run the read program until the first error
 	var got, abandoned []wsref.Message
